@@ -21,7 +21,9 @@ import (
 
 // VR is a value record (nil = absent).
 type VR struct {
-	Dx, Dy, Da int
+	Dx int `json:"dx"`
+	Dy int `json:"dy"`
+	Da int `json:"da"`
 }
 
 // Act is a nested action.
@@ -647,7 +649,7 @@ func Build(c *Case) (*Built, error) {
 func MkSeq(in []int) []glyph.Info {
 	seq := make([]glyph.Info, len(in))
 	for i, g := range in {
-		seq[i] = glyph.Info{GID: glyph.ID(g), Text: []rune{rune(i + 1)}, Advance: funit.Int16(100 * g)}
+		seq[i] = glyph.Info{GID: glyph.ID(g), Text: []rune{rune(i + 1)}, Advance: funit.Int16(10 * (g % 300))}
 	}
 	return seq
 }
